@@ -65,7 +65,7 @@ func Worker(shard, n int, tier string) *engine.Result {
 	f := replica.NewFix()
 	f.Battery = true
 	base := append(replica.Templates(), replica.StateShapeTemplates()...)
-	tmpl := append(append([]replica.Template{}, base...), replica.GovTemplates()...)
+	tmpl := append(append(append([]replica.Template{}, base...), replica.GovTemplates()...), replica.ExtraGovTemplates()...)
 	ps := plans(tier, tmpl, len(base))
 	res.Extra["histories"] = len(ps)
 	deadline := time.Now().Add(25 * time.Minute)
